@@ -334,7 +334,8 @@ pub fn run_item(prop: &str, item: &Item) -> ItemResult {
         // an item is abandoned at its first violating execution: the verdict is in, and a changed tree can make
         // the rest of the item arbitrarily expensive (e.g. surplus workers)
         let mut next = if res.violations.is_empty() { Next::Continue } else { Next::Stop };
-        if time_cap > 0 && t_item.elapsed().as_secs() >= time_cap {
+        // (a single-schedule item is complete after its one execution, however long that took)
+        if time_cap > 0 && !item.plan.single && t_item.elapsed().as_secs() >= time_cap {
             timed_out = true;
             next = Next::Stop;
         }
